@@ -30,7 +30,7 @@ BOUNDS = {
               "case": "every string of 7 characters over the 64-letter upper+lower charset after bc1 / BC1 / Bc1 / tb1",
               "error detection": "all substitution patterns of weight <= 4 within the last 71 data characters (same constant) and "
                                  "weight <= 3 (constant switched), decided through linearity lemmas on the real loop body"},
-    "thorough": {"encode/decode": "as quick plus a symbolic 1..3 character hrp", "decoder differential": "data part 6..20, lengths 39..74",
+    "thorough": {"encode/decode": "as quick plus a symbolic 1..3 character hrp", "decoder differential": "data part 6..16 (requested hrp symbolic: 8, 11, 14), lengths 39..74",
                  "case": "12 characters", "error detection": "as quick, plus the independent encoding with 2 symbolic positions"},
 }
 BOUNDS_ADDED = 'one character outside 33..126 (any code point up to U+10FFFF) in prefix or data part, lower- and upper-case addresses; the same address decoded twice with the first result mutated by the caller; helper.bech32_decode_address against the BIP173/350 reference on fully symbolic data parts'
@@ -691,11 +691,11 @@ def cases(tier):
                            need=("a string with a character outside 33..126 is rejected by bech32_decode",)))
     # (b)
     for hl in (1, 2, 3):
-        for m in ((11, 12, 14) if q else range(6, 21)):
+        for m in ((11, 12, 14) if q else range(6, 17)):
             cs.append(Case("diff[h%d,m%d,same]" % (hl, m), "decoder_diff", dict(hl=hl, m=m, same_hrp=True), weight=m * hl,
                            max_paths=200000))
     for hl in (1, 2):
-        for m in ((11,) if q else (8, 11, 14, 20)):
+        for m in ((11,) if q else (8, 11, 14)):
             cs.append(Case("diff[h%d,m%d,req]" % (hl, m), "decoder_diff", dict(hl=hl, m=m, same_hrp=False), weight=m * hl * 3,
                            max_paths=200000))
     for hrp in ("bc", "tb"):
